@@ -157,7 +157,7 @@ def run_bounded(prop, tier, seed):
     path = os.path.join(VERIF, 'bounded.json')
     if not os.path.exists(path):
         return [], [], []
-    items = [b for b in json.load(open(path)) if b.get('property') == prop]
+    items = [b for b in json.load(open(path)) if b.get('property') == prop or prop in (b.get('also') or [])]
     ev, viol, lines = [], [], []
     for b in items:
         iters = b.get('iters_thorough' if tier == 'thorough' else 'iters_quick', 1000)
